@@ -349,6 +349,10 @@ func (i *interpreter) vpOpt(name string, v int) {
 		i.p.timeStep = v
 	case "clock":
 		i.p.concreteClock = v != 0
+	case "blocktime":
+		// CheckBlockSanity judges the header's timestamp against the local
+		// clock first (a per-block free boolean) and stops there when it fails
+		i.ext["opt:blocktime"] = v != 0
 	default:
 		if strings.HasPrefix(name, "real:") {
 			// run the real code of a function that is normally replaced by a model
